@@ -150,11 +150,18 @@ Print Assumptions C02_source_facts.
 
 (* ------------------------------------------------------------------------------------------------ *)
 (* (2) the bounded abstract domain, closed by complete enumeration (vm_compute + forallb_forall).
-   BOUND: k ranges over all_kinds = the four __call__ kinds and 16 open() kinds (8 bodies x 2
-   cardinalities); bs over cases_of 2 k = every header class (2 x 3 x 4 x 2) x trailer class (4 x 2)
+   BOUND: k ranges over all_kinds = the four __call__ kinds and 8 open() bodies (the cardinality of an
+   open() kind is irrelevant: C02_open_cardinality_irrelevant); bs over cases_of 2 k = every header class (2 x 3 x 4 x 2) x trailer class (4 x 2)
    x layout {nothing, H, H(END), H D^n, H D^n(END), H D^n T; n <= 2} x cut {none, RST, GOAWAY, lost}
    x every split point of the cut batch x {one batch, one batch per event} x every trigger
    {blocked, before step i}. *)
+
+Theorem C02_open_cardinality_irrelevant :
+  forall cs ss cs' ss' p bs,
+    outcome (Open cs ss p) bs = outcome (Open cs' ss' p) bs /\
+    defect (Open cs ss p) bs = defect (Open cs' ss' p) bs.
+Proof. exact open_cardinality_irrelevant. Qed.
+Print Assumptions C02_open_cardinality_irrelevant.
 
 (* FULL-STRENGTH STATEMENT (false):
      forall k bs, In k all_kinds -> In bs (cases_of 2 k) -> spec_allows bs (outcome k bs) = true *)
